@@ -265,6 +265,13 @@ func runC06(c *eng.Ctx) {
 	})
 
 	c.Rule("PASS", qT+".SetAppendedSeq{appended = acknowledged = seq on every path}", func() { resetLeavesEmptyQueue(c) })
+	// an index reset pulls the queue back first: consume() hands out consumed+1 only while it is <= Queue.AppendedSeq(), so a group
+	// that a running consumer moves during the reset cannot pass the new position
+	c.Rule("ORDER", foT+".SetAppendedSeq{queue before groups}", func() {
+		f := c.Fn(foT + ".SetAppendedSeq")
+		orderInFn(c, f, invokeOn(".queue", "SetAppendedSeq"), invokeOn("", "SetSeq"), "queue.SetAppendedSeq", "group.SetSeq")
+		neverBefore(c, f, invokeOn(".queue", "SetAppendedSeq"), invokeOn("", "SetSeq"), "queue.SetAppendedSeq", "group.SetSeq")
+	})
 
 	c.Rule("GUARD", "pkg/queue.queue.persistMetaOfMessage{cached index page = page of the sequence}", func() { cachedIndexPageRule(c) })
 
